@@ -199,8 +199,9 @@ def gen_sheet(rng):
         if t is None:
             return rng.choice([None, None, "junk"])
         if t == 'Key':
-            return rng.choice(["k%d" % i] * 6 + [None, " "]) if not spec['ladder'] else rng.choice(
-                ["k%d" % i, "k%d" % i, None, ""])
+            # (a blank cell may hold blanks of any kind: a no-break space, the wide blank of a CJK keyboard)
+            return rng.choice(["k%d" % i] * 6 + [None, " ", "\u2003"]) if not spec['ladder'] else rng.choice(
+                ["k%d" % i, "k%d" % i, "k%d" % i, None, "", "\xa0", "\u3000 "])
         if t == 'Name':
             return rng.choice([None, " n%d " % i, "x", 17, ""])
         if t == 'Num':
@@ -209,7 +210,9 @@ def gen_sheet(rng):
             return rng.choice([None, 'v', 1, '', 'True', False, '1', 'False'])
         if t == 'Tags':
             return rng.choice([None, "a, b\nc", "q", ",,", " x ,x", "R\x0bD, ops", "a\x0cb", "p\rq,r", "x\u2028y\nz",
-                               "m\x1dn"])
+                               "m\x1dn",
+                               # (line ends of another machine inside a cell, tabs and other blanks next to the commas)
+                               "red\r\ngreen", "a,\tb", "a ,\xa0b\u3000", "\u3000", "x,\x0c,y\t"])
         if t == 'Opt':
             return rng.choice([None, "o%d" % i])
         if t.startswith("Extra"):
@@ -722,7 +725,7 @@ def blank_sheet_case(ctx, rng):
     """a worksheet without a single row, or with blank rows only: there is no table in it - and no object"""
     ctx.evaluated()
     width = rng.randint(1, 4)
-    grid = [[rng.choice([None, None, "", " "]) if rng.random() < 0.5 else None for _ in range(width)]
+    grid = [[rng.choice([None, None, "", " ", "\xa0", "\u3000"]) if rng.random() < 0.5 else None for _ in range(width)]
             for _ in range(rng.choice([0, 0, 1, 3]))]
     rules = make_rules({'range_kind': 'none', 'tags_kind': 'list'})
     case = {"blank_sheet": grid}
